@@ -11,7 +11,7 @@ import (
 
 // C02 — intersects is exact planar intersection and symmetric.
 
-func init() { register("C02", runC02, evalPair) }
+func init() { register("C02", runC02, evalC02) }
 
 func runC02(r *rt.Run) {
 	r.Describe = describePair
@@ -57,6 +57,7 @@ func runC02(r *rt.Run) {
 		}
 	})
 	c02NearMiss(r)
+	c02NearParallel(r)
 	r.Sample(pairCase("intersects", p.polys[7].E, p.lines[100].E, ident, ""))
 	r.Sample(pairCase("intersects", p.holed[3].E, p.hPolys[5].E, ident, ""))
 }
@@ -65,8 +66,7 @@ func runC02(r *rt.Run) {
 // line or the corner of a square at a distance of about 1/N, and the
 // matching exact hits: a tolerance in the kernels can only show here. The
 // oracle uses orientation predicates only (int64-exact at this magnitude).
-func c02NearMiss(r *rt.Run) {
-	w := r.Worker()
+func nearMissEval(n int64, q [2]exact.P) (got, want []bool) {
 	segBox := func(a, b exact.P, n int64) bool { // closed segment meets the closed square [0,n]^2
 		in := func(p exact.P) bool { return p.X >= 0 && p.X <= n && p.Y >= 0 && p.Y <= n }
 		if in(a) || in(b) {
@@ -81,12 +81,22 @@ func c02NearMiss(r *rt.Run) {
 		return false
 	}
 	t := Xf{Scale: 1}
+	sq := []exact.P{{X: 0, Y: 0}, {X: n, Y: 0}, {X: n, Y: n}, {X: 0, Y: n}, {X: 0, Y: 0}}
+	poly := geometry.NewPoly(t.pts(sq), nil, idxNone)
+	rect := geometry.Rect{Min: t.pt(sq[0]), Max: t.pt(sq[2])}
+	base := geometry.NewLine(t.pts([]exact.P{{X: 0, Y: 0}, {X: n, Y: 0}}), idxNone)
+	line := geometry.NewLine(t.pts(q[:]), idxNone)
+	wantLL := exact.SegsIntersect(exact.P{X: 0, Y: 0}, exact.P{X: n, Y: 0}, q[0], q[1])
+	wantBox := segBox(q[0], q[1], n)
+	got = []bool{base.IntersectsLine(line), line.IntersectsLine(base), poly.IntersectsLine(line), line.IntersectsPoly(poly), rect.IntersectsLine(line), line.IntersectsRect(rect)}
+	want = []bool{wantLL, wantLL, wantBox, wantBox, wantBox, wantBox}
+	return
+}
+
+func c02NearMiss(r *rt.Run) {
+	w := r.Worker()
 	cnt := 0
 	for _, n := range []int64{12, 100, 4097, 65537, 1000000, 1048570} {
-		sq := []exact.P{{X: 0, Y: 0}, {X: n, Y: 0}, {X: n, Y: n}, {X: 0, Y: n}, {X: 0, Y: 0}}
-		poly := geometry.NewPoly(t.pts(sq), nil, idxNone)
-		rect := geometry.Rect{Min: t.pt(sq[0]), Max: t.pt(sq[2])}
-		base := geometry.NewLine(t.pts([]exact.P{{X: 0, Y: 0}, {X: n, Y: 0}}), idxNone)
 		for _, da := range []int64{-1, 0, 1, 2} {
 			for _, db := range []int64{-1, 0, 1, 2} {
 				for _, top := range []int64{n, 1, 7, n / 10} {
@@ -94,24 +104,20 @@ func c02NearMiss(r *rt.Run) {
 						// line q from (n+da, top) to (n+db, bot): passes the end (n,0) of the base line / the corner of the square
 						a, b := exact.P{X: n + da, Y: top}, exact.P{X: n + db, Y: bot}
 						// and a line passing the corner (n,0) diagonally from outside
-						for vi, q := range [][2]exact.P{{a, b}, {exact.P{X: n - n/10 - da, Y: bot}, exact.P{X: n + 1, Y: 1 + db}}} {
+						for _, q := range [][2]exact.P{{a, b}, {exact.P{X: n - n/10 - da, Y: bot}, exact.P{X: n + 1, Y: 1 + db}}} {
 							if q[0].X > 1<<20 || q[1].X > 1<<20 || q[0].X < -(1<<20) || q[1].Y < -(1<<20) {
 								continue
 							}
-							line := geometry.NewLine(t.pts(q[:]), idxNone)
-							wantLL := exact.SegsIntersect(exact.P{X: 0, Y: 0}, exact.P{X: n, Y: 0}, q[0], q[1])
-							wantBox := segBox(q[0], q[1], n)
 							cnt++
 							w.Evals += 6
 							w.Nontriv++
 							w.States++
-							got := []bool{base.IntersectsLine(line), line.IntersectsLine(base), poly.IntersectsLine(line), line.IntersectsPoly(poly), rect.IntersectsLine(line), line.IntersectsRect(rect)}
-							want := []bool{wantLL, wantLL, wantBox, wantBox, wantBox, wantBox}
+							got, want := nearMissEval(n, q)
 							for k := range got {
 								if got[k] != want[k] {
-									k, n, vi := k, n, vi
+									k, n, q := k, n, q
 									w.Fail("intersects-near-miss", func() (rt.Case, string, string) {
-										return rt.Case{Kind: "nearmiss", Op: fmt.Sprint(k), Nums: []float64{float64(n), float64(q[0].X), float64(q[0].Y), float64(q[1].X), float64(q[1].Y), float64(vi)}}, fmt.Sprint(want[k]), fmt.Sprint(got[k])
+										return rt.Case{Kind: "nearmiss", Op: fmt.Sprint(k), Nums: []float64{float64(n), float64(q[0].X), float64(q[0].Y), float64(q[1].X), float64(q[1].Y)}}, fmt.Sprint(want[k]), fmt.Sprint(got[k])
 									})
 								}
 							}
@@ -123,4 +129,94 @@ func c02NearMiss(r *rt.Run) {
 	}
 	r.Bounds["near_miss_long_segment_cases"] = cnt
 	w.Flush()
+}
+
+// nearParEval: the 2-position line [a,b] against the 3-position line
+// [p,o,q], both orders, and the sliver triangle (a, b, q) against the
+// segment [p,o] (triangle-vs-segment decided by orientation predicates).
+func nearParEval(a, b, p, o, q exact.P) (got, want []bool) {
+	t := Xf{Scale: 1}
+	la := geometry.NewLine(t.pts([]exact.P{a, b}), idxNone)
+	lb := geometry.NewLine(t.pts([]exact.P{p, o, q}), idxNone)
+	wantLL := exact.SegsIntersect(a, b, p, o) || exact.SegsIntersect(a, b, o, q)
+	lc := geometry.NewLine(t.pts([]exact.P{p, q}), idxNone) // straight through: the meeting point is interior to both
+	wantLC := exact.SegsIntersect(a, b, p, q)
+	got = []bool{la.IntersectsLine(lb), lb.IntersectsLine(la), la.IntersectsLine(lc), lc.IntersectsLine(la)}
+	want = []bool{wantLL, wantLL, wantLC, wantLC}
+	if exact.Orient(a, b, q) != 0 {
+		tri := []exact.P{a, b, q, a}
+		poly := geometry.NewPoly(t.pts(tri), nil, idxNone)
+		seg := geometry.NewLine(t.pts([]exact.P{p, o}), idxNone)
+		inTri := func(x exact.P) bool {
+			s1, s2, s3 := exact.Orient(a, b, x), exact.Orient(b, q, x), exact.Orient(q, a, x)
+			return (s1 >= 0 && s2 >= 0 && s3 >= 0) || (s1 <= 0 && s2 <= 0 && s3 <= 0)
+		}
+		wantTS := inTri(p) || inTri(o) || exact.SegsIntersect(a, b, p, o) || exact.SegsIntersect(b, q, p, o) || exact.SegsIntersect(q, a, p, o)
+		got = append(got, poly.IntersectsLine(seg), seg.IntersectsPoly(poly), poly.IntersectsPoint(t.pt(o)), poly.IntersectsPoint(t.pt(p)))
+		want = append(want, wantTS, wantTS, inTri(o), inTri(p))
+	}
+	return
+}
+
+// c02NearParallel: the near-parallel direction family of C19 (lengths from
+// 2^17) at shape level.
+func c02NearParallel(r *rt.Run) {
+	type job struct{ d1, d2 exact.P }
+	var jobs []job
+	nearParDirs(1<<20-4, r.Thorough(), func(bi int, m int64, d1, d2 exact.P) {
+		if m >= 1<<17-1 || m <= 5 {
+			jobs = append(jobs, job{d1, d2})
+		}
+	})
+	r.Bounds["near_parallel_direction_pairs"] = len(jobs)
+	r.ParFor(len(jobs), func(i int, w *rt.Worker) {
+		jb := jobs[i]
+		a, b := psub(exact.P{}, jb.d1), jb.d1
+		for ox := int64(-1); ox <= 1; ox++ {
+			for oy := int64(-1); oy <= 1; oy++ {
+				o := exact.P{X: ox, Y: oy}
+				p, q := psub(o, jb.d2), padd(o, jb.d2)
+				if !in20(p) || !in20(q) {
+					continue
+				}
+				got, want := nearParEval(a, b, p, o, q)
+				w.States++
+				w.Evals += int64(len(got))
+				w.Nontriv++
+				for k := range got {
+					if got[k] != want[k] {
+						k := k
+						w.Fail("intersects-near-parallel", func() (rt.Case, string, string) {
+							return rt.Case{Kind: "nearpar", Op: fmt.Sprint(k), Nums: []float64{float64(a.X), float64(a.Y), float64(b.X), float64(b.Y), float64(p.X), float64(p.Y), float64(o.X), float64(o.Y), float64(q.X), float64(q.Y)}}, fmt.Sprint(want[k]), fmt.Sprint(got[k])
+						})
+					}
+				}
+			}
+		}
+	})
+}
+
+func evalC02(c *rt.Case) (bool, string, string, error) {
+	ip := func(i int) exact.P { return exact.P{X: int64(c.Nums[i]), Y: int64(c.Nums[i+1])} }
+	var got, want []bool
+	switch c.Kind {
+	case "nearmiss":
+		if len(c.Nums) < 5 {
+			return false, "", "", fmt.Errorf("malformed case")
+		}
+		got, want = nearMissEval(int64(c.Nums[0]), [2]exact.P{ip(1), ip(3)})
+	case "nearpar":
+		if len(c.Nums) < 10 {
+			return false, "", "", fmt.Errorf("malformed case")
+		}
+		got, want = nearParEval(ip(0), ip(2), ip(4), ip(6), ip(8))
+	default:
+		return evalPair(c)
+	}
+	var k int
+	fmt.Sscan(c.Op, &k)
+	if k < 0 || k >= len(got) {
+		return false, "", "", fmt.Errorf("malformed case")
+	}
+	return got[k] != want[k], fmt.Sprint(want[k]), fmt.Sprint(got[k]), nil
 }
